@@ -51,7 +51,12 @@ def convergenceFail (tz : Int) (files : List FileJ) (pems : List PemJ) (ranks : 
             | .ok g, some c =>
               let tbsModel := (Gen.tbsTlv g.tbs).toOption.map Tlv.enc
               if tbsModel != some c.tbs.raw.enc then
-                fail := some "C12: a certificate gopki produced differs from what a run from scratch would produce for the current configuration"
+                -- the known blind spot of the hash (C13): run-relative validity is not hashed
+                let tbsSameButUntil := (Gen.tbsTlv { g.tbs with notAfter := c.tbs.notAfter }).toOption.map Tlv.enc
+                if tbsSameButUntil == some c.tbs.raw.enc && !(eff.validity.isStatic && eff.validity.isSet) then
+                  fail := some "C12: a certificate gopki produced keeps an outdated notAfter: `until`/`duration` of a validity without `from` is not part of the configuration hash"
+                else
+                  fail := some "C12: a certificate gopki produced differs from what a run from scratch would produce for the current configuration"
               else
                 let self := eff.issuer.isEmpty
                 let issuerPem := (s.find eff.issuer).bind fun i => pems.find? (·.path = artifactFileName i.configPath)
@@ -66,7 +71,7 @@ def convergenceFail (tz : Int) (files : List FileJ) (pems : List PemJ) (ranks : 
                   else match realKey issuerPem with | some k => some k | none => (issuerPem.bind (·.cert)).map (·.subjectKey.toNat)
                 let sigManip := eff.manipulations.signatureValue.isSome || eff.manipulations.signatureAlgorithm.isSome
                 if !sigManip && !(match issuerKeyId with | some k => (cj.verifiesUnder.getD []).contains k | none => false) then
-                  fail := some "C12: a certificate gopki produced does not verify against its issuer's current certificate"
+                  fail := some "C01: after the history a certificate gopki produced does not verify against its issuer's current certificate"
             | .error err, _ => fail := some s!"C12: model cannot regenerate {e.alias_}: {err}"
             | _, none => fail := some "C12: certificate not decodable"
         | _, _ => pure ()
@@ -90,6 +95,7 @@ def opHist : OpFn := fun view inp out => do
   let mut runs : Nat := 0
   let mut faulted : Nat := 0
   let mut lastOk := false
+  let mut prevRun : Option Nat := none      -- flags of the directly preceding successful run
   let n := stepsIn.length
   let mut i : Nat := 0
   for (si, so) in stepsIn.zip stepsOut do
@@ -107,6 +113,11 @@ def opHist : OpFn := fun view inp out => do
         corr := false; corrClause := s!"step {i}: {v.clause}"; detail := v.detail
       if !v.spec && specFail.isNone then
         specFail := some s!"{v.clause}"; feat := v.feat; detail := v.detail
+      -- C10: a run directly after a successful run with the same flags (other than generate-all) is a no-op
+      if specFail.isNone && prevRun == some strat && strat < 16 && fault.isNone && (!v.planned.isEmpty || !o.writes.isEmpty) then
+        specFail := some "C10: re-running sign right after a successful run is not a no-op"
+        detail := Json.mkObj [("planned", toJson v.planned), ("step", i)]
+      prevRun := if v.ok && o.openErr == "" && o.planErr == "" then some strat else none
       -- the last two steps are default runs: convergence after the first, no-op for the second
       if i + 2 == n && specFail.isNone then
         if !v.ok then
@@ -114,6 +125,8 @@ def opHist : OpFn := fun view inp out => do
           if !v.corr then specFail := some ("C12: the default run after the history did not succeed: " ++ v.clause)
         else
           specFail := convergenceFail tz files postPems (ranksOf so "ranks") keys
+          if (specFail.getD "").startsWith "C12: a certificate gopki produced keeps an outdated notAfter" then
+            feat := Json.mkObj [("validityNotStatic", true)]
           lastOk := true
       if i + 1 == n && specFail.isNone && lastOk then
         if !v.planned.isEmpty || !o.writes.isEmpty then
@@ -121,11 +134,12 @@ def opHist : OpFn := fun view inp out => do
           detail := Json.mkObj [("planned", toJson v.planned)]
         else if !(prePems.zip postPems).all (fun (a, b) => a.path == b.path && (a.cert.map (·.der)) == (b.cert.map (·.der)) && a.hash == b.hash && (a.key.map (·.pkcs8)) == (b.key.map (·.pkcs8))) then
           specFail := some "C10: a file changed during a run that generated nothing"
+    if op != "run" then prevRun := none
     prePems := postPems
     preRanks := ranksOf so "ranks"
     i := i + 1
-  let _ := view
-  pure { corr := corr, spec := specFail.isNone, clause := specFail.getD corrClause, nontrivial := runs ≥ 3,
+  let specSeen := match specFail with | some c => if viewAccepts view c then some c else none | none => none
+  pure { corr := corr, spec := specSeen.isNone, clause := specFail.getD corrClause, nontrivial := runs ≥ 3,
          branch := s!"runs{runs}" ++ (if faulted > 0 then "+fault" else ""), model := detail, feat := feat }
 
 end Driver
